@@ -57,12 +57,13 @@ def main():
     # 3. demo with and without
     rc1, o1 = sh('/venv/bin/python demo_seed.py 2>&1 | tail -5', cwd=wt, env=env)
     rc1 = subprocess.run(['/venv/bin/python', 'demo_seed.py'], cwd=wt, env=env, capture_output=True).returncode
-    sh('git stash', cwd=wt)
+    # (no `git stash`: the stash is shared by all worktrees of a repository)
+    sh('git checkout -- sedfitter', cwd=wt)
     try:
         rc0 = subprocess.run(['/venv/bin/python', 'demo_seed.py'], cwd=wt, env=env, capture_output=True).returncode \
             if os.path.exists(demo) else None
     finally:
-        sh('git stash pop', cwd=wt)
+        subprocess.run(['git', 'apply', os.path.join(out, 'patch.diff')], cwd=wt, check=True)
     meta['demo_exit_with_change'] = rc1
     meta['demo_exit_without_change'] = rc0
     meta['demo_output_with_change'] = o1.strip()[-600:]
